@@ -102,7 +102,9 @@ def check(run):
     run.touch(st)
     fw = [c for c in st.calls() if q.callee_name(c) == 'sim::forward_packet'] + [c for c in st.calls() if (q.callee_name(c) or '').endswith('pcap::log_udp')]
     mtud = [v for n in st.all_nodes() if n['k'] == 'decl' for v in n['vars'] if v.get('name') == 'mtu']
-    run.check(bool(mtud) and q.render(st, mtud[0]['init']) == 'm_io_service.get_path_mtu(m_bound_to.address(), dst.address())', 'R4', 'df-mtu-source', st.norm, st.loc(),
+    if not mtud:
+        run.broke('send_to_impl: local mtu not found (renamed?)')
+    run.check(not mtud or q.render(st, mtud[0]['init']) == 'm_io_service.get_path_mtu(m_bound_to.address(), dst.address())', 'R4', 'df-mtu-source', st.norm, st.loc(),
               'mtu is not get_path_mtu(m_bound_to.address(), dst.address()) queried in this call', 'queried per send for (own, destination)')
     ifs = [n for n in st.all_nodes() if n['k'] == 'if' and 'm_dont_fragment' in q.render(st, n['cond'])]
     if len(ifs) != 1:
